@@ -72,6 +72,9 @@ pub trait Adapter {
     }
     /// C08: a*c1 + b*c2 computed with the curve library (None for hash-based commitments)
     fn comm_lin(_a: Self::F, _c1: &Cm<Self>, _b: Self::F, _c2: &Cm<Self>) -> Option<Cm<Self>> { None }
+    /// the same combination a*c1 + b*c2 formed with the library's OWN public operators on commitments (C08: the homomorphic
+    /// add used by combination code), accumulated from the empty commitment and, separately, from c1 scaled in place
+    fn comm_lin_lib(_a: Self::F, _c1: &Cm<Self>, _b: Self::F, _c2: &Cm<Self>) -> Option<Vec<Cm<Self>>> { None }
     fn comm_is_identity(_c: &Cm<Self>) -> Option<bool> { None }
     /// schemes without a non-hiding mode (Hyrax): commitments are compared through their opening (state)
     fn always_blinded() -> bool { false }
@@ -800,6 +803,10 @@ where
     for i in 0..5 { out.obs1(&format!("comm.{}", i), "H", sha_hex(&ser(cs[i]))); A::comm_obs(i, cs[i], &_states[i], out); }
     if let Some(l) = A::comm_lin(a, cs[0], b, cs[1]) {
         out.obs1("additive", "S", if ser(&l) == ser(cs[2]) { "holds".into() } else { "fails".into() });
+        // the library's own operators must give the same element as the harness's group arithmetic
+        if let Some(ls) = A::comm_lin_lib(a, cs[0], b, cs[1]) {
+            out.obs1("additive_lib", "S", if ls.iter().all(|x| ser(x) == ser(&l)) { "holds".into() } else { "fails".into() });
+        }
     }
     if let Some(z) = A::comm_is_identity(cs[4]) { out.obs1("zero_is_identity", "S", if z { "yes".into() } else { "no".into() }); }
     if !A::always_blinded() { out.obs1("repr_invariant", "S", if ser(cs[3]) == ser(cs[0]) { "holds".into() } else { "fails".into() }); }
